@@ -1,6 +1,7 @@
 import FalconModel.AsyncReader
 import FalconModel.AsyncReaderIter
 import FalconModel.AsyncReaderNested
+import FalconModel.AsyncReaderGuard
 open ARd Rd
 
 /-! line-protocol driver for the models of falcon/asgi/reader.py:
@@ -8,7 +9,10 @@ open ARd Rd
       new <chunk> <piece hex | -> ...     -> ok          root reader `ARd.AR` over the given source pieces
       read <n|none> | readall | peek <n> | ru <d> <n|none> <0|1> | pu <d> <0|1> | pipe | exhaust | iter <k>
                                           -> ok <hex> | unit | err delim | err value | chunks <hex|-> ...
-                                             followed by ` tell=<tell()> eof=<eof>` of the reader addressed
+                                             followed by ` tell=<tell()> eof=<eof>` of the reader addressed;
+                                             `err notallowed tell=.. eof=..` for an `iter` on a reader object whose iteration
+                                             was started before (the `_iteration_started` guard: every level runs through
+                                             `ARg.gStep`, one flag per reader object)
       delimit <d>                         -> ok          the innermost reader's `delimit(d)` becomes the innermost reader
       pop                                 -> ok          the innermost (delimited) reader is dropped; its parent is addressed again
 
@@ -75,31 +79,47 @@ def stepN {σ : Type} [Ma.ASource σ] (r : Ma.AR σ) (ws : List String) : Option
   | some op => let x := An.nStep r op; some (x.2, showN x.1 ++ s!" tell={Ma.tell x.2} eof={Ma.eof x.2}")
   | none => none
 
-/-- the innermost reader; a delimited reader contains its parent (`c.src.parent`) -/
+/-- the innermost reader with its `_iteration_started` flag; a delimited reader contains its parent (`c.src.parent`), whose
+    flag is kept beside it (`fs`: flags of the enclosing readers, innermost first) -/
 inductive St where
-  | l0 (r : AR)
-  | l1 (c : Ma.AR (Ma.DelimGen Ma.Raw))
-  | l2 (c : Ma.AR (Ma.DelimGen (Ma.DelimGen Ma.Raw)))
+  | l0 (g : ARg.G AR)
+  | l1 (g : ARg.G (Ma.AR (Ma.DelimGen Ma.Raw))) (f0 : Bool)
+  | l2 (g : ARg.G (Ma.AR (Ma.DelimGen (Ma.DelimGen Ma.Raw)))) (f1 f0 : Bool)
+
+def wsIsIter (ws : List String) : Bool := ws.head? == some "iter"
+
+/-- an operation line run through the guard `ARg.gStep`; `stp` is the unguarded string-level step, `tl` renders tell/eof -/
+def guarded {ρ : Type} (stp : ρ → List String → Option (ρ × String)) (tl : ρ → String) (g : ARg.G ρ) (ws : List String) :
+    Option (ARg.G ρ × String) :=
+  match stp g.r ws with
+  | none => none
+  | some _ =>
+    let x := ARg.gStep wsIsIter (fun r w => match stp r w with | some (r', out) => (out, r') | none => ("bad-op", r)) g ws
+    match x.1 with
+    | .inner out => some (x.2, out)
+    | .notAllowed => some (x.2, "err notallowed" ++ tl x.2.r)
 
 def step' (s : St) (line : String) : St × String :=
   match line.trimAscii.toString.splitOn " " with
   | "new" :: chunk :: parts =>
-    (.l0 { chunk := chunk.toInt!, src := parts.map fromHex }, "ok")
+    (.l0 { r := { chunk := chunk.toInt!, src := parts.map fromHex }, started := false }, "ok")
   | ["delimit", d] =>
     match s with
-    | .l0 r => (.l1 (Ma.delimit (An.toMa r) (fromHex d)), "ok")
-    | .l1 c => (.l2 (Ma.delimit c (fromHex d)), "ok")
+    | .l0 g => (.l1 { r := Ma.delimit (An.toMa g.r) (fromHex d), started := false } g.started, "ok")
+    | .l1 g f0 => (.l2 { r := Ma.delimit g.r (fromHex d), started := false } g.started f0, "ok")
     | _ => (s, "bad-op")
   | ["pop"] =>
     match s with
-    | .l1 c => (.l0 (An.ofMa c.src.parent), "ok")
-    | .l2 c => (.l1 c.src.parent, "ok")
+    | .l1 g f0 => (.l0 { r := An.ofMa g.r.src.parent, started := f0 }, "ok")
+    | .l2 g f1 f0 => (.l1 { r := g.r.src.parent, started := f1 } f0, "ok")
     | _ => (s, "bad-op")
   | ws =>
     match s with
-    | .l0 r => match step0 r ws with | some (r, out) => (.l0 r, out) | none => (s, "bad-op")
-    | .l1 c => match stepN c ws with | some (c, out) => (.l1 c, out) | none => (s, "bad-op")
-    | .l2 c => match stepN c ws with | some (c, out) => (.l2 c, out) | none => (s, "bad-op")
+    | .l0 g => match guarded step0 st g ws with | some (g, out) => (.l0 g, out) | none => (s, "bad-op")
+    | .l1 g f0 => match guarded stepN (fun r => s!" tell={Ma.tell r} eof={Ma.eof r}") g ws with
+      | some (g, out) => (.l1 g f0, out) | none => (s, "bad-op")
+    | .l2 g f1 f0 => match guarded stepN (fun r => s!" tell={Ma.tell r} eof={Ma.eof r}") g ws with
+      | some (g, out) => (.l2 g f1 f0, out) | none => (s, "bad-op")
 
 partial def loop (h : IO.FS.Stream) (s : St) : IO Unit := do
   let line ← h.getLine
@@ -107,4 +127,4 @@ partial def loop (h : IO.FS.Stream) (s : St) : IO Unit := do
   let (s', out) := step' s line
   IO.println out
   loop h s'
-def main : IO Unit := do loop (← IO.getStdin) (.l0 { chunk := 1, src := [] })
+def main : IO Unit := do loop (← IO.getStdin) (.l0 { r := { chunk := 1, src := [] }, started := false })
